@@ -85,6 +85,10 @@ class _Compiler:
                     patterns = case[0]
                     if patterns is None:
                         self.emitter.append(f"case _:")
+                        with self.emitter.indent():
+                            case_handler(*case)
+                        # Python rejects any `case` following a wildcard; later cases are never active.
+                        break
                     elif not patterns:
                         self.emitter.append(f"case _ if False:")
                     else:
